@@ -309,8 +309,12 @@ func (gstHarness) Exec(p *simkit.Program) *simkit.Result {
 		case "lookup":
 			idx := int(st.A)
 			t := &task{name: fmt.Sprintf("lookup%d#%d", idx, i)}
+			existedBefore := chain.set(idx) != nil
 			t.fn = func() string {
-				existed := chain.set(idx) != nil
+				existed := existedBefore
+				if !raceBuild {
+					existed = chain.set(idx) != nil
+				}
 				g, err := gs.GetGuardianSet(ctx, idx)
 				if err != nil {
 					if existed {
